@@ -172,6 +172,67 @@ CHECKS = {
                 "over histories; hemisphere arithmetic is C02.signed, geometry C07, duplicates C06.",
         "note": _BASE_NOTE + "C01.sec-switch findings are listed as open (feature-sized).",
     },
+    "C05": {
+        "technique": "static analysis: sibling/table rules between signers, verifier and router on the message dictionary tree; "
+                     "who-writes rules on the certificate-inclusion state; PSID-indexed comparison of verifier exits with signer output",
+        "text": "Decides: each signer TBS-encodes the tbsData of the very object it emits, writes nothing under tbsData after that "
+                "encoding and places no live reference to shared mutable state inside it; headerInfo keys per profile (CAM/VAM: "
+                "psid+generationTime, optional inlineP2pcdRequest/requestedCertificate; DENM: + generationLocation; generic) and, per "
+                "PSID, signer-may-emit vs verifier-rejects = empty and verifier-requires within signer-always (verifier exits in "
+                "disjunctive normal form with their PSID facts); signer kind per profile, the inclusion trigger `> 1 s or "
+                "requested` with reset, and that only set_up_signer restarts the timer / clears the request flag; signing ticket "
+                "covers the request's ITS-AID, missing ticket raises; P2PCD plumbing (who notifies whom, flag only ever set); the "
+                "router signs Common||Extended||payload, dispatches profile -> signer and emits BasicHeader(NH=SECURED)||message. "
+                "Does NOT decide acceptance within two exchanges over join histories, nor the 1 s timer in real time.",
+        "note": _BASE_NOTE + "Profile tables from TS 103 097 V2.1.1 clause 7.1 embedded in rules/c05.py.",
+    },
+    "C10": {
+        "technique": "static analysis: guard facts on every generation/transmission site, bounds on T_GenCam stores, finally-based "
+                     "re-arming, paired LF rules, formula identity of generationDeltaTime",
+        "text": "Decides the structural necessary conditions of the CAM/VAM timing rules: CAMs are generated from one decision point, "
+                "each site under `first CAM` or `now - last >= T_GenCam_DCC (>= 100 ms)`; condition-1 needs the dynamics trigger "
+                "(heading > 4 deg with 0/360 fold, haversine > 4 m, speed > 0.5 m/s against the values stored from the last CAM's "
+                "report), condition-2 fires at `elapsed >= T_GenCam`; every store to T_GenCam lies in [100, 1000]; the check timer is "
+                "re-armed in a finally block and only while active; start/stop discipline; LF container iff first or >= 500 ms, "
+                "stamped iff included; generationDeltaTime = (UTC ms - epoch + leap) mod 65536 from the report read once under the "
+                "lock. VRU: VAMs sent from one decision point under `first` or `report >= T_GenVamMin after the last VAM`, behind "
+                "the clustering gate, elapsed trigger present, LF rule (first / 2 s / cluster op) with paired stamp. Does NOT "
+                "decide the interval bounds over trajectories (run properties).",
+        "note": _BASE_NOTE + "The timing bounds themselves are declined; each rule is a necessary condition of them.",
+    },
+    "C12": {
+        "technique": "static analysis: transitive write-effect summaries over the resolved call graph (CHA), guard facts, "
+                     "returns-none summaries, keyword-forwarding rules",
+        "text": "Decides: what each IF.LDM.3/4 entry point may and must write among store dictionary / id counter / registries / "
+                "subscription structures; registration gating of every store mutation and query; an update replaces only the "
+                "record's dataObject member; no success test on a callee that always returns None; every key of the stored record "
+                "is fed by the same-named request attribute; id = counter then counter += 1, never written elsewhere; expiry "
+                "predicate timestamp + validity*1000 < now and the reactive trigger. 5 known findings (delete path, update/delete "
+                "gating, TinyDB update scope) are pinned by the suite. Does NOT decide equivalence with a map model over histories.",
+        "note": _BASE_NOTE + "In-memory back-end; class hierarchy analysis covers reactive and threaded service/maintenance variants.",
+    },
+    "C13": {
+        "technique": "static analysis: table agreement rules (operator vocabulary in three places, lambda bodies), sibling rules "
+                     "between the two search implementations",
+        "text": "Decides: ComparisonOperators/LogicalOperators __str__ tables, OPERATOR_MAPPING keys and the literals tested by both "
+                "back-ends agree; each lambda implements the comparison its key names, notlike = not like; 'and' combines with "
+                "and, the other branch with or, in both back-ends; both back-ends root dotted attribute paths at record"
+                "['dataObject']; an object lacking the attribute is handled per object; every search return and LDMService.query "
+                "path applies the requested type selection; ordering uses the requested attributes and direction. Does NOT "
+                "decide equivalence with a predicate evaluator over generated stores nor TinyDB internals.",
+        "note": _BASE_NOTE,
+    },
+    "C14": {
+        "technique": "static analysis: guard facts on the callback call chain, provenance of the notified data, paired bookkeeping "
+                     "rules, validation decision table",
+        "text": "Decides: process_notifications is reached only for a non-empty result, with multiplicity satisfied and for a consumer "
+                "still registered; the callback runs only when last + notify_time <= now, outside the lock, with the search result of "
+                "this subscription (its types/filter/order) and its own callback; the last-notified time advances exactly when "
+                "notifying; list and map are inserted/removed together; unsubscribe removes exactly the matching id for registered "
+                "consumers; each of the seven validators maps to its result code and storing happens only after all passed; "
+                "reactive attendance after insertion. Does NOT decide cadence as timing.",
+        "note": _BASE_NOTE,
+    },
 }
 
 NOT_APPLICABLE = {}
